@@ -11,6 +11,7 @@
 import LbfgsbVerif.Proofs.C02
 import LbfgsbVerif.Proofs.C11
 import LbfgsbVerif.Props.C03
+import LbfgsbVerif.Proofs.Dcsrch
 import Mathlib.Algebra.Order.Field.Rat
 
 namespace Lbfgsb.C11
@@ -72,7 +73,48 @@ theorem maxStep_feasible (x d lb ub : Vec α) (maxStep : α) (nit : Nat) (hn : n
   obtain ⟨h1, h2⟩ := maxAllowedStep_le x d lb ub maxStep nit hn
   exact ⟨feasible_of_le_cand x d lb ub hx hd a h0 (fun t ht => le_trans ha (h2 t ht)), h1⟩
 
+/-- `InBoxF` (with `≤`) gives `InBox` (with `¬ <`) -/
+theorem inBox_of_inBoxF {lb ub p : Vec α} (h : InBoxF lb ub p) : InBox lb ub p := by
+  induction lb generalizing ub p with
+  | nil => cases ub <;> cases p <;> simp_all [InBoxF, InBox]
+  | cons l ls ih =>
+    cases ub with
+    | nil => simp [InBoxF] at h
+    | cons u us =>
+      cases p with
+      | nil => simp [InBoxF] at h
+      | cons q qs =>
+        simp only [InBoxF] at h
+        simp only [InBox]
+        exact ⟨⟨not_lt.2 h.1.1, not_lt.2 h.1.2⟩, ih h.2⟩
+
+/-- **C11 (4')** consequently, in exact arithmetic, the projection in the trial point is the
+identity for every step the stepper may propose (`0 ≤ a ≤ stpmax = max_allowed_steplength`, see
+`dcsrch_steps_in_range`): the line search evaluates points of the ray `x + a·d` itself. -/
+theorem ls_trials_on_ray (x d lb ub : Vec α) (maxStep : α) (nit : Nat) (hn : nit ≠ 0)
+    (hx : InBoxF lb ub x) (hd : d.length = x.length) (a : α) (h0 : 0 ≤ a)
+    (ha : a ≤ maxAllowedStep x d lb ub maxStep nit) :
+    trial x d lb ub a = vadd x (smul a d) :=
+  clip_of_inBox (inBox_of_inBoxF (maxStep_feasible x d lb ub maxStep nit hn hx hd a h0 ha).1)
+
 end F
+
+/-! ### The stepper itself (model of SciPy's `DCSRCH._iterate` + `dcstep`, Model/Dcsrch.lean) -/
+section stepper
+open Dcsrch
+variable {α : Type} [LinearOrder α] [Add α] [Sub α] [Mul α] [Div α] [Neg α] [OfNat α 0] [OfNat α 1]
+  [FloatLike α] [DcOps α]
+
+/-- **C11 (5)** every step the Moré–Thuente stepper asks the line search to evaluate lies in
+`[0, stpmax]` — for any arithmetic and whatever values `f`, `g` the caller reports (level U): the
+contract the theorems above treat as an oracle property holds for the model of the stepper that
+the correspondence check compares bit for bit with SciPy's. -/
+theorem dcsrch_steps_in_range (ftol gtol xtol stpmin stpmax stp0 : α) (answers : List (α × α)) :
+    ∀ p ∈ trace (DC.new ftol gtol xtol stpmin stpmax) stp0 .start answers,
+      p.2 = .fg → ¬ p.1 < 0 ∧ ¬ stpmax < p.1 :=
+  trace_in_range stpmin stpmax answers _ stp0 .start (fun _ => ⟨rfl, rfl⟩) (fun h => absurd rfl h)
+
+end stepper
 
 /-! ### Non-vacuity (over ℚ): x = (0, 1), d = (2, -1), box [-1,1]² — the largest feasible step
 is 1/2 (first coordinate hits the upper bound). -/
@@ -80,6 +122,13 @@ section nonvacuous
 attribute [local instance] fieldFloatLike
 example : maxAllowedStep ([0, 1] : Vec ℚ) [2, -1] [-1, -1] [1, 1] 100 3 = 1 / 2 := by
   decide +kernel
+
+
+instance : Dcsrch.DcOps ℚ := ⟨fun x => x * x, fun a b => decide (a ≤ b), fun a b => decide (a = b)⟩
+/-- phi(t) = (t − 5)², start step 1, stpmax 10, gtol 1/10: the stepper asks for t = 1 and, given
+phi(1) = 16, phi'(1) = −8, extrapolates to the minimiser t = 5 -/
+example : Dcsrch.trace (Dcsrch.DC.new (1/1000 : ℚ) (1/10) (1/10) 0 10) 1 .start [(25, -10), (16, -8)]
+    = [(1, .fg), (5, .fg)] := by decide +kernel
 end nonvacuous
 
 end Lbfgsb.C11
